@@ -64,6 +64,12 @@ FREE = {
     "quick": dict(runs=150, min_events=10, max_events=70),
     "thorough": dict(runs=1500, min_events=10, max_events=150),
 }
+# Stop() under load (saturating source that runs ahead, fast consumers): a large batch, screened by the
+# driver (see TestVerifBlockNtfnsFree), because the window of the shutdown gap is ~1e-5 per run
+STRESS = {
+    "quick": dict(runs=3000, screen=50, min_events=20, max_events=60),
+    "thorough": dict(runs=450000, screen=1500, min_events=20, max_events=60),
+}
 WALKS = {"quick": 0, "thorough": 3000}
 
 ASSUMPTIONS = [
@@ -178,6 +184,22 @@ def run(prop_id, tier, seed, replay=None):
                 "runs_overflowing_41_slots": sum(1 for t in free if overflowed(t)),
                 "quiesced": sum(1 for t in free if t["steps"] and t["steps"][-1]["act"]["op"] == "Quiesce"),
             }
+            stc = STRESS[tier]
+            ts = time.time()
+            stress, slog = family.run_driver(binary, "TestVerifBlockNtfnsFree", pfs[0], os.path.join(sc, "stress.ndjson"),
+                                             sc, env_extra={"VERIF_SEED": str(seed), "VERIF_FREE_RUNS": str(stc["runs"]),
+                                                            "VERIF_FREE_MIN_EVENTS": str(stc["min_events"]),
+                                                            "VERIF_FREE_MAX_EVENTS": str(stc["max_events"]),
+                                                            "VERIF_FREE_PROFILE": "stop",
+                                                            "VERIF_FREE_SCREEN": str(stc["screen"])})
+            for t in stress:
+                t["id"] = "stop-%d" % t["id"]
+            extra["stop_under_load"] = {
+                "runs_executed": stc["runs"], "runs_judged_by_tlc": len(stress),
+                "screen": "every %d-th run, plus every run with a non-consecutive receive sequence, a blocked "
+                          "call, no quiescence or a driver error" % stc["screen"],
+                "wall_s": round(time.time() - ts, 1)}
+            free += stress
         extra["phase_wall_s"] = {"model": round(tp - t0, 1), "drivers": round(time.time() - tp, 1)}
         tj = time.time()
         verdict = judge_all(prop_id, observed + free)
